@@ -168,23 +168,27 @@ def r03_1(ctx, rep, roles):
         if row.exit == "return":
             n += 1
             check_copy(rep, "C03/R03.1/NodeDigest", f, row.ret, ("S", "st"), {"heartbeat": "heartbeat", "last_gc_version": "last_gc_version", "max_version": "max_version"}, NS)
-    # (e) compute_digest: (id.clone(), state.digest()) of one map entry
+    # (e) compute_digest: (id.clone(), state.digest()) of one map entry — iterator chain or loop with insert alike
     f = roles.compute_digest
     eng = sym.Engine(fx, no_inline={roles.node_digest["id"]})
     okp = False
-    for c in fx.closures_of(f["id"]):
-        for row in eng.table(c, arg_terms={1: ("ptr", ("S", "env"), ()), 2: ("obj", ("S", "entry"))}):
-            t = row.ret
-            if row.exit == "return" and t is not None and t[0] == "agg" and t[1] == "<tuple>" and len(t[3]) == 2:
-                k, v = t[3][0][1], t[3][1][1]
-                e1 = ("proj", ("obj", ("S", "entry")), F("<tuple>", "1"))
-                okk = any(s == ("proj", ("obj", ("S", "entry")), F("<tuple>", "0")) for s in T.subterms(k)) or (
-                    T.mentions_field(k, NS, "chitchat_id") and any(s == e1 for s in T.subterms(k)))
-                okv = v[0] == "call" and v[1] == roles.node_digest["id"] and any(s == ("proj", ("obj", ("S", "entry")), F("<tuple>", "1")) for s in T.subterms(v))
-                n += 1
-                okp = okk and okv
-                rep.obligation(okp, "C03/R03.1/compute_digest/pair", "digest entry is (%s, %s)" % (sym.fmt(k)[:50], sym.fmt(v)[:50]), where(fx.fns[c]),
-                               sample="digest entry = (entry.id.clone(), entry.state.digest())")
+    rows_d = eng.table(f["id"], arg_terms={1: ("ptr", ("S", "self"), ()), 2: ("ptr", ("S", "excl"), ())})
+    for row, adds in T.collection_items(eng, rows_d):
+        for k, v in adds:
+            if v is None:
+                continue
+            nxt_k = [x for x in T.subterms(k) if x[0] == "call" and x[1].endswith("::next") and not x[1].startswith("havoc:")]
+            nxt_v = [x for x in T.subterms(v) if x[0] == "call" and x[1].endswith("::next") and not x[1].startswith("havoc:")]
+            same_entry = bool(nxt_k) and bool(nxt_v) and (nxt_k[0][1], nxt_k[0][3]) == (nxt_v[0][1], nxt_v[0][3])
+            key_part = any(x[0] == "proj" and x[2] == F("<tuple>", "0") for x in T.subterms(k)) and not any(x[0] == "proj" and x[2] == F("<tuple>", "1") for x in T.subterms(k))
+            okv = v[0] == "call" and v[1] == roles.node_digest["id"] and any(x[0] == "proj" and x[2] == F("<tuple>", "1") for x in T.subterms(v))
+            calls_k = {sym.strip_all_generics(x[1]).split("::")[-1] for x in T.subterms(k) if x[0] == "call"} - {"next", "iter", "into_iter", "clone"}
+            n += 1
+            via_state = T.mentions_field(k, NS, "chitchat_id") and any(x[0] == "proj" and x[2] == F("<tuple>", "1") for x in T.subterms(k))
+            calls_k -= {"chitchat_id"}
+            okp = same_entry and (key_part or via_state) and okv and not calls_k
+            rep.obligation(okp, "C03/R03.1/compute_digest/pair", "digest entry is (%s, %s)" % (sym.fmt(k)[:50], sym.fmt(v)[:50]), where(f),
+                           sample="digest entry = (entry.id.clone(), entry.state.digest())")
     rep.obligation(okp, "C03/R03.1/compute_digest/anchor", "cannot find the (id, digest) pairing of compute_digest", where(f))
     # (f) try_add_node: positional
     f = roles.ser_add_node
